@@ -184,6 +184,6 @@ func gen(r *rand.Rand, tier string, n int) []any {
 }
 
 func main() {
-	common.Main(common.Prop{ID: "C02", Facts: facts, Gen: gen, Run: run, QuickN: 500, ThoroughN: 6000,
+	common.Main(common.Prop{ID: "C02", Facts: facts, Gen: gen, Run: run, QuickN: 500, ThoroughN: 2500,
 		Preamble: "From Verif Require Import Lib.Dedup_Iter.\nOpen Scope Z_scope.\n"})
 }
